@@ -115,7 +115,10 @@ def cases(tier, rng, schema, feats):
     # short / medium signature with x5c absent, empty and holding one short certificate, against every capacity of the menu up to 129
     for variant, t in (("MakeCredential", RESPONSES["MakeCredential"]), ("GetAssertion", RESPONSES["GetAssertion"])):
         for sigl in (0, 8, 20, 40):
-            for x5c in (("N",), ("S", ("L", [])), ("S", ("L", [("b", b"\x30\x03\x01\x02\x03")]))):
+            for x5c in (("N",), ("S", ("L", [])), ("S", ("L", [("b", b"\x30\x03\x01\x02\x03")])),
+                        # certificates whose DER header declares more, exactly as much, and less than the entry holds
+                        ("S", ("L", [("b", b"\x30\x82\x02\x00" + b"\x11" * 12)])), ("S", ("L", [("b", b"\x30\x82\x00\x08" + b"\x22" * 8)])),
+                        ("S", ("L", [("b", b"\x30\x82\x00\x02" + b"\x33" * 9)]))):
                 base = small(("named", t), g.named_val(t, present="none"), False)
                 st = ("S", ("V", "Packed", ("R", [("alg", ("i", -7)), ("sig", ("b", b"\x5a" * sigl)), ("x5c", x5c)])))
                 fs = [(l, st if l == "att_stmt" else x) for l, x in base[1]]
